@@ -44,6 +44,7 @@ CHUNK = 1
 MAX_WORKERS = 4  # fork-heavy runs do not scale beyond ~4 parallel workers in this sandbox (measured)
 SHRINK_BUDGET = 80  # one history costs ~4 forks
 SHRINK_SECONDS = 60
+SELFTEST_N = {"quick": 5, "thorough": 12}
 RULE = (
     "one run = one history of 5-9 operations on one process (compile / generate / simulate with an injected fault / "
     "re-simulate / other program in 2D mode / damaged program text / scene round trip) over a seeded DYN program with "
